@@ -28,6 +28,8 @@ inductive Err
   | fault (kind : String)   -- interpreter-level fault (TypeError, IndexError, KeyError, NameError …)
 deriving DecidableEq, Repr
 
+deriving instance DecidableEq for Except
+
 abbrev Locus := Nat × Nat
 abbrev PairTable := List (List (Option Locus))
 
